@@ -8,7 +8,7 @@ import copy
 from ..cfg import build_cfg, calls_in, node_calls
 from ..core import Ctx, property_info, rule, share
 from ..model import AnalysisError, ClassInfo, FuncInfo, anon_text, walk_no_nested
-from ..q import A, MUTATORS, asrc, is_self_attr, kwarg, root_name, stores, unparse
+from ..q import Dispatch, alternatives, forms, call_name_of, guarded_subscripts, names_from_calls, return_values, A, MUTATORS, asrc, is_self_attr, kwarg, root_name, stores, unparse
 
 SER = "xsdata.formats.dataclass.serializers"
 PAR = "xsdata.formats.dataclass.parsers"
@@ -107,6 +107,8 @@ def backends_share_state_machine(ctx: Ctx) -> None:
         for name, m in b.methods.items():
             if name in WRITER_PROTOCOL or name in ("__init__",):
                 continue
+            if name.startswith("_") and not name.startswith("__"):
+                continue  # private helper: analysed inlined into the protocol methods that call it
             ctx.ob(f"{b.name}.{name} is a designated backend hook", name in BACKEND_HOOKS, at=m, construct=f"hook {b.name}.{name}", msg="backend overrides a method outside the designated hooks")
     tb = ctx.repo.func(f"{SER}.writers.lxml:LxmlTreeBuilder.build")
     ctx.ob("LxmlTreeBuilder.build drives the shared write()", A("self.write(_)") in asrc(tb), at=tb, construct="tree builder drives write", msg="tree builder bypasses the shared state machine")
@@ -119,20 +121,43 @@ def _normalised_event_loop(fi: FuncInfo) -> ast.For | None:
     return None
 
 
-def _branches(loop: ast.For) -> tuple[dict[str, list[ast.stmt]], list[ast.stmt]]:
-    out: dict[str, list[ast.stmt]] = {}
-    chain = next((s for s in loop.body if isinstance(s, ast.If) and "EventType." in unparse(s.test)), None)
-    orelse: list[ast.stmt] = []
-    while chain is not None:
-        t = chain.test
-        if isinstance(t, ast.Compare) and isinstance(t.comparators[0], ast.Attribute) and unparse(t.comparators[0].value) == "EventType":
-            out[t.comparators[0].attr] = chain.body
-        if len(chain.orelse) == 1 and isinstance(chain.orelse[0], ast.If):
-            chain = chain.orelse[0]
-        else:
-            orelse = chain.orelse
-            chain = None
-    return out, orelse
+def event_dispatch(fi: FuncInfo):
+    """(loop, event variable, element variable, Dispatch over the event variable) of a streaming handler's event pump."""
+    loop = _normalised_event_loop(fi)
+    if loop is None or not all(isinstance(e, ast.Name) for e in loop.target.elts):
+        raise AnalysisError(f"event loop `for event, element in ...` not found in {fi.qual}")
+    ev_var, el_var = loop.target.elts
+    d = Dispatch(fi.node, is_subject=lambda e: isinstance(e, ast.Name) and e.id == ev_var.id)
+    return loop, ev_var, el_var, d
+
+
+def _is_fresh(e: ast.expr | None) -> bool:
+    """A newly created container: x.copy(), dict(...)/list(...)/set(...), a display or comprehension, or a choice of those."""
+    if e is None:
+        return False
+    if isinstance(e, (ast.Dict, ast.List, ast.Set, ast.DictComp, ast.ListComp, ast.SetComp)):
+        return True
+    if isinstance(e, ast.IfExp):
+        return _is_fresh(e.body) and _is_fresh(e.orelse)
+    if isinstance(e, ast.Call):
+        f = e.func
+        if isinstance(f, ast.Attribute) and f.attr in ("copy",):
+            return True
+        if isinstance(f, ast.Name) and f.id in ("dict", "list", "set", "defaultdict"):
+            return True
+    if isinstance(e, ast.BinOp) and isinstance(e.op, ast.BitOr):
+        return True  # a | b builds a new mapping
+    return False
+
+
+def _args_at(fi: FuncInfo, g, call: ast.Call) -> list[str]:
+    n = g.node_of(call)
+    return [sorted(forms(fi, n, a), key=len)[0] if n is not None else anon_text(a, fi.node) for a in call.args]
+
+
+def _arg_forms(fi: FuncInfo, g, call: ast.Call) -> list[set[str]]:
+    n = g.node_of(call)
+    return [forms(fi, n, a) if n is not None else {anon_text(a, fi.node)} for a in call.args]
 
 
 @rule("C08.R2")
@@ -140,80 +165,114 @@ def handler_sibling_agreement(ctx: Ctx) -> None:
     """Both parser handlers translate each event kind to the same parser call with corresponding arguments, and consume the whole stream."""
     nat = ctx.repo.func(f"{PAR}.handlers.native:XmlEventHandler.process_context")
     lx = ctx.repo.func(f"{PAR}.handlers.lxml:LxmlEventHandler.process_context")
-    loops = {"native": _normalised_event_loop(nat), "lxml": _normalised_event_loop(lx)}
-    if any(v is None for v in loops.values()):
-        raise AnalysisError("C08.R2: event loop not found in a handler")
-    tables = {}
-    for k, loop in loops.items():
-        br, orelse = _branches(loop)
-        tables[k] = (br, orelse)
-        fi = nat if k == "native" else lx
-        ctx.ob(f"{k}: every event kind START / END / START_NS has a branch and unknown events raise XmlHandlerError", set(br) == {"START", "END", "START_NS"} and any(
-            isinstance(s, ast.Raise) and "XmlHandlerError" in unparse(s.exc) for s in orelse), at=fi, construct=f"{k} dispatch", msg=f"branches {sorted(br)}")
-        src = fi.node.body[-1]
-        ctx.ob(f"{k}: returns the last bound object or None", A(unparse(src)) == A("return self.objects[-1][1] if self.objects else None"), at=fi, node=src, construct=f"{k} result", msg="result expression differs")
+    ee = ctx.repo.cls(f"{PAR}.mixins:XmlHandler").methods.get("end_element")
     want = {
         "START": ("start", ["self.clazz", "self.queue", "self.objects", "_.tag", "_.attrib"]),
         "END": ("end", ["self.queue", "self.objects", "_.tag", "_.text", "_.tail"]),
     }
-    # the end of an element is delivered either directly in the END branch or - deferred until the next event, when the tail is complete -
-    # through the shared XmlHandler.end_element(element)
-    ee = ctx.repo.cls(f"{PAR}.mixins:XmlHandler").methods.get("end_element")
-    for k, (br, _) in tables.items():
-        fi = nat if k == "native" else lx
-        loop = loops[k]
+    start_last: dict[str, set[str]] = {}
+    for k, fi in (("native", nat), ("lxml", lx)):
+        loop = _normalised_event_loop(fi)
+        if loop is None:
+            raise AnalysisError(f"C08.R2: event loop not found in {fi.qual}")
+        ev_var, el_var = loop.target.elts[0], loop.target.elts[1]
+        if not (isinstance(ev_var, ast.Name) and isinstance(el_var, ast.Name)):
+            raise AnalysisError("C08.R2: event loop target is not (event, element)")
+        d = Dispatch(fi.node, is_subject=lambda e: isinstance(e, ast.Name) and e.id == ev_var.id)
+        g = d.g
+        kinds = {x.split(".", 1)[1] for x in d.keys if x.startswith("EventType.")}
+        default = d.specific(None)
+        raises = [n for n in default if n.kind == "stmt" and isinstance(n.ast, ast.Raise) and n.ast.exc is not None and "XmlHandlerError" in unparse(n.ast.exc)]
+        ctx.ob(f"{k}: every event kind START / END / START_NS has a branch and unknown events raise XmlHandlerError", kinds == {"START", "END", "START_NS"} and bool(raises), at=fi, construct=f"{k} dispatch", msg=f"branches {sorted(kinds)}")
+        rv = [v for v in (x for r in g.returns() for x in alternatives(fi.node, r.ast.value)) if not (isinstance(v, ast.Constant) and v.value is None)]
+        ctx.ob(f"{k}: returns the last bound object or None", bool(rv) and all(unparse(v) == "self.objects[-1][1]" for v in rv), at=fi, construct=f"{k} result", msg="result expression differs")
+        branch = {kind: d.specific(f"EventType.{kind}") for kind in ("START", "END", "START_NS")}
+
+        def calls_of(nodes, name: str) -> list[ast.Call]:
+            return [c for n in nodes if n.kind != "test" for c in node_calls(n) if unparse(c.func) == name]
+
         for ev, (meth, args) in want.items():
-            calls = [c for s in br.get(ev, []) for c in calls_in(s) if unparse(c.func) == f"self.parser.{meth}"]
-            where = fi
+            calls = calls_of(branch[ev], f"self.parser.{meth}")
+            where, gw = fi, g
             if ev == "END" and not calls and ee is not None:
-                # deferred form: END only remembers the element; every iteration first flushes the remembered element; so does the loop exit
-                pend = [st.targets[0].id for st in br.get("END", []) if isinstance(st, ast.Assign) and isinstance(st.targets[0], ast.Name) and unparse(st.value) == unparse(loop.target.elts[1])]
-                flush_top = bool(pend) and isinstance(loop.body[0], ast.If) and A(unparse(loop.body[0].test)) == A(f"{pend[0]} is not None") and any(
-                    A(unparse(c)) == A(f"self.end_element({pend[0]})") for c in calls_in(loop.body[0])) and any(
-                    isinstance(x, ast.Assign) and unparse(x.targets[0]) == pend[0] and isinstance(x.value, ast.Constant) and x.value.value is None for x in loop.body[0].body)
-                g = build_cfg(fi.node)
-                after = [n for n in g.stmts() if any(A(unparse(c)) == A(f"self.end_element({pend[0]})") for c in node_calls(n)) and not any(n.ast is x for x in ast.walk(loop))] if pend else []
-                head = g.node_of(loop)
-                tests_after = [t for t in g.nodes if t.kind == "test" and pend and A(unparse(t.ast)) == A(f"{pend[0]} is not None") and not any(t.ast is x for x in ast.walk(loop))]
-                flush_end = bool(after) and bool(tests_after) and head is not None and all(g.must_pass(head.id, r.id, [t.id for t in tests_after]) for r in g.returns()) \
-                    and all(g.only_if(a.id, tests_after[0].id, True) for a in after)
-                ctx.ob(f"{k}: END is deferred: the ended element is delivered through end_element() before the next event is dispatched and after the loop", flush_top and flush_end, at=fi,
-                       construct=f"{k} deferred end", msg="a deferred END is not flushed on every path: the last element (or every element) is never bound")
+                # deferred form: END only remembers the element; it is delivered through end_element() before the next event is dispatched and after the loop
+                pend_nodes = [n for n in branch["END"] if n.kind == "stmt" and isinstance(n.ast, ast.Assign) and len(n.ast.targets) == 1 and isinstance(n.ast.targets[0], ast.Name)
+                              and isinstance(n.ast.value, ast.Name) and n.ast.value.id == el_var.id]
+                ok = False
+                if len(pend_nodes) == 1:
+                    P = pend_nodes[0].ast.targets[0].id
+                    flush = [n.id for n in g.stmts() if any(unparse(c.func) == "self.end_element" and len(c.args) == 1 and isinstance(c.args[0], ast.Name) and c.args[0].id == P for c in node_calls(n))]
+                    # after `P = element` the tests `P is not None` are known true / `P is None` known false until P is reset
+                    be = []
+                    for t in g.nodes:
+                        if t.kind == "test" and isinstance(t.ast, ast.Compare) and isinstance(t.ast.left, ast.Name) and t.ast.left.id == P and len(t.ast.ops) == 1 \
+                                and isinstance(t.ast.comparators[0], ast.Constant) and t.ast.comparators[0].value is None:
+                            drop = "false" if isinstance(t.ast.ops[0], ast.IsNot) else ("true" if isinstance(t.ast.ops[0], ast.Is) else None)
+                            be += [(t.id, m, lab) for m, lab in g.succ[t.id] if lab == drop]
+                        elif t.kind == "test" and isinstance(t.ast, ast.Name) and t.ast.id == P:
+                            be += [(t.id, m, lab) for m, lab in g.succ[t.id] if lab == "false"]
+                    sinks = set(d.tests) | {r.id for r in g.returns()} | {g.exit}
+                    reach = g.reachable([m for m, _ in g.succ[pend_nodes[0].id]], blocked=flush, blocked_edges=be, labels=lambda lab: lab != "exc")
+                    resets = [n.id for n in g.stmts() if isinstance(n.ast, ast.Assign) and len(n.ast.targets) == 1 and isinstance(n.ast.targets[0], ast.Name) and n.ast.targets[0].id == P
+                              and isinstance(n.ast.value, ast.Constant) and n.ast.value.value is None]
+                    head = g.node_of(loop)
+                    in_loop_flush = [f for f in flush if head is not None and head.id in g.reachable([f])]
+                    reset_ok = all(g.must_pass(f, head.id, resets + [pend_nodes[0].id]) for f in in_loop_flush) if head is not None else False
+                    ok = bool(flush) and not (reach & sinks) and reset_ok
+                ctx.ob(f"{k}: END is deferred: the ended element is delivered through end_element() before the next event is dispatched and after the loop", ok, at=fi,
+                       construct=f"{k} deferred end", msg="a deferred END is not flushed on every path (or flushed twice): the last element (or every element) is never bound")
                 calls = [c for c in calls_in(ee.node) if unparse(c.func) == "self.parser.end"]
-                where = ee
-            got = [anon_text(a, where.node) for a in calls[0].args] if calls else []
-            ctx.ob(f"{k}: {ev} calls parser.{meth}({', '.join(args)}, ...)", len(calls) == 1 and got[:len(args)] == [A(x) for x in args], at=where, node=calls[0] if calls else None,
-                   construct=f"{k} {ev} call", msg=f"arguments {got}")
-        clears = [c for s in br.get("END", []) for c in calls_in(s) if isinstance(c.func, ast.Attribute) and c.func.attr == "clear"]
+                where, gw = ee, build_cfg(ee.node)
+            got = _arg_forms(where, gw, calls[0]) if calls else []
+            okc = len(calls) == 1 and len(got) >= len(args) and all(A(x) in got[i] for i, x in enumerate(args))
+            ctx.ob(f"{k}: {ev} calls parser.{meth}({', '.join(args)}, ...)", okc, at=where, node=calls[0] if calls else None, construct=f"{k} {ev} call", msg=f"arguments {[sorted(x)[0] for x in got]}")
+            if ev == "START" and calls:
+                start_last[k] = got[-1] if got else set()
+        clears = [c for n in branch["END"] if n.kind != "test" for c in node_calls(n) if isinstance(c.func, ast.Attribute) and c.func.attr == "clear"]
         if not clears and ee is not None:
             clears = [c for c in calls_in(ee.node) if isinstance(c.func, ast.Attribute) and c.func.attr == "clear"]
             g2 = build_cfg(ee.node)
             endn = [n for n in g2.stmts() if any(unparse(c.func) == "self.parser.end" for c in node_calls(n))]
-            ok_order = bool(endn) and all(g2.must_pass(g2.entry, g2.node_of(c).id, [e.id for e in endn]) for c in clears)
+            ok_order = bool(endn) and all(g2.node_of(c) is not None and g2.must_pass(g2.entry, g2.node_of(c).id, [e.id for e in endn]) for c in clears)
             ctx.ob(f"{k}: the element is cleared only after its END was delivered", len(clears) == 1 and ok_order, at=ee, construct=f"{k} clear", msg="element cleared before its text / tail were read")
         else:
             ctx.ob(f"{k}: the element is cleared after its END was delivered", len(clears) == 1, at=fi, construct=f"{k} clear", msg="memory / tail behaviour differs between handlers")
-        reg = [c for s in br.get("START_NS", []) for c in calls_in(s) if unparse(c.func) == "self.parser.register_namespace"]
-        ok = len(reg) == 1 and len(reg[0].args) == 3 and anon_text(reg[0].args[0], fi.node) == "_"
-        ctx.ob(f"{k}: START_NS registers (recorder, prefix or None, uri)", ok, at=fi, construct=f"{k} register", msg="namespace registration differs")
-        # the empty prefix is normalised to None in both
-        txt = "".join(anon_text(s, fi.node) for s in br.get("START_NS", []))
-        ctx.ob(f"{k}: the empty prefix is normalised to None", "_orNone" in txt, at=fi, construct=f"{k} prefix none", msg="default namespace prefix '' vs None")
+        reg = calls_of(branch["START_NS"], "self.parser.register_namespace")
+        okr = len(reg) == 1 and len(reg[0].args) == 3 and anon_text(reg[0].args[0], fi.node) == "_"
+        ctx.ob(f"{k}: START_NS registers (recorder, prefix or None, uri)", okr, at=fi, construct=f"{k} register", msg="namespace registration differs")
+        # the empty prefix is normalised to None in both: the registered prefix argument is `<prefix> or None` in one of its expansion forms
+        pf = _arg_forms(fi, g, reg[0])[1] if okr else set()
+        ctx.ob(f"{k}: the empty prefix is normalised to None", any(x.endswith("orNone") for x in pf), at=fi, construct=f"{k} prefix none", msg="default namespace prefix '' vs None")
     # in-scope map per element: lxml takes element.nsmap, native merges the parent's map with the element's own declarations
-    lcalls = [c for s in tables["lxml"][0].get("START", []) for c in calls_in(s) if unparse(c.func) == "self.parser.start"]
-    ncalls = [c for s in tables["native"][0].get("START", []) for c in calls_in(s) if unparse(c.func) == "self.parser.start"]
-    ctx.ob("lxml START passes element.nsmap as the in-scope map", bool(lcalls) and anon_text(lcalls[0].args[-1], lx.node) == "_.nsmap", at=lx, construct="lxml in-scope map", msg="in-scope map argument changed")
-    ctx.ob("native START passes merge_parent_namespaces(own declarations) as the in-scope map", bool(ncalls) and anon_text(ncalls[0].args[-1], nat.node) == "self.merge_parent_namespaces(_)", at=nat,
+    ctx.ob("lxml START passes element.nsmap as the in-scope map", "_.nsmap" in start_last.get("lxml", set()), at=lx, construct="lxml in-scope map", msg="in-scope map argument changed")
+    ctx.ob("native START passes merge_parent_namespaces(own declarations) as the in-scope map", "self.merge_parent_namespaces(_)" in start_last.get("native", set()), at=nat,
            construct="native in-scope map", msg="in-scope map argument changed")
     mp = ctx.repo.func(f"{PAR}.handlers.native:XmlEventHandler.merge_parent_namespaces")
-    a = asrc(mp)
-    ok = A("_=self.queue[-1].ns_map") in a and A("_=_.copy()if_else{}") in a and A("for_,_in_.items():;_[_]=_") in a and "return_" in a
-    ctx.ob("merge_parent_namespaces: result = copy of the parent node's map overridden by the element's own declarations", ok, at=mp, construct="merge semantics", msg="parent bindings lost or the parent's map mutated")
     g = build_cfg(mp.node)
-    sts = [g.node_of(st) for st, tgt, v in stores(mp.node) if isinstance(tgt, ast.Subscript)]
-    copies = [g.node_of(st) for st, tgt, v in stores(mp.node) if isinstance(tgt, ast.Name) and v is not None and (".copy()" in unparse(v) or isinstance(v, ast.Dict))]
-    ctx.ob("merge_parent_namespaces never writes into the parent's map (stores only into a fresh dict)", bool(sts) and all(s is not None and g.must_pass(g.entry, s.id, [c.id for c in copies if c]) for s in sts), at=mp,
-           construct="merge no aliasing", msg="child declarations would leak into the parent / siblings")
+    defs = {}
+    for st, tgt, v in stores(mp.node):
+        if isinstance(tgt, ast.Name):
+            defs.setdefault(tgt.id, []).append(v)
+    fresh = {n for n, vs in defs.items() if vs and all(_is_fresh(v) for v in vs)}
+    parent_names = {n for n, vs in defs.items() if any(v is not None and unparse(v) == "self.queue[-1].ns_map" for v in vs)}
+    muts: list[tuple[ast.AST, str | None]] = []
+    for st, tgt, v in stores(mp.node):
+        if isinstance(tgt, ast.Subscript):
+            muts.append((st, root_name(tgt)))
+    for c in calls_in(mp.node):
+        if isinstance(c.func, ast.Attribute) and c.func.attr in MUTATORS:
+            muts.append((c, root_name(c.func.value)))
+    ctx.ob("merge_parent_namespaces never writes into the parent's map or the caller's map (mutations only on a fresh dict)", all(r in fresh for _, r in muts), at=mp,
+           construct="merge no aliasing", msg=f"mutation of {[r for _, r in muts if r not in fresh]}: child declarations would leak into the parent / siblings")
+    from_parent = any(v is not None and any(isinstance(x, ast.Call) and ((isinstance(x.func, ast.Attribute) and x.func.attr == "copy" and root_name(x.func.value) in parent_names)
+                                                                             or (isinstance(x.func, ast.Name) and x.func.id == "dict" and x.args and root_name(x.args[0]) in parent_names)) for x in ast.walk(v))
+                      for n in fresh for v in defs[n])
+    own_in = any((isinstance(m, ast.Call) and m.func.attr == "update" and m.args and unparse(m.args[0]) == "ns_map") for m, _ in muts) or any(
+        isinstance(n, ast.For) and "ns_map" in unparse(n.iter) and any(isinstance(x, ast.Subscript) and isinstance(x.ctx, ast.Store) and root_name(x) in fresh for x in ast.walk(n)) for n in walk_no_nested(mp.node))
+    rv = [v for r in g.returns() for v in alternatives(mp.node, r.ast.value)]
+    ret_ok = bool(rv) and all((isinstance(v, ast.Name) and (v.id in fresh or v.id in parent_names)) or _is_fresh(v) or unparse(v) == "self.queue[-1].ns_map" for v in rv)
+    ctx.ob("merge_parent_namespaces: result = copy of the parent node's map overridden by the element's own declarations", from_parent and own_in and ret_ok, at=mp, construct="merge semantics",
+           msg="parent bindings lost or the parent's map mutated")
     ev_n = ctx.repo.module(f"{PAR}.handlers.native").globals.get("EVENTS")
     ev_l = ctx.repo.module(f"{PAR}.handlers.lxml").globals.get("EVENTS")
     ctx.ob("both handlers subscribe to the same event kinds", ev_n is not None and ev_l is not None and unparse(ev_n) == unparse(ev_l), at=nat.module, node=ev_n, construct="EVENTS", msg="EVENTS tuples differ")
@@ -413,22 +472,29 @@ def prefixes_resolved_never_matched(ctx: Ctx) -> None:
            construct="literal prefix", msg="prefix matched literally")
     rs = ctx.repo.func("xsdata.formats.converter:QNameConverter.resolve")
     g = build_cfg(rs.node)
-    look = [n for n in g.stmts() if any(isinstance(c.func, ast.Attribute) and c.func.attr == "get" and unparse(c.func.value) == "ns_map" for c in node_calls(n))]
-    ptests = [t for t in g.nodes if t.kind == "test" and unparse(t.ast) == "prefix"]
+    prefixes = names_from_calls(rs.node, ("split",), index=0)  # prefix, name = text.split(value, ":")
+    gets = [(n, c) for n in g.stmts() for c in node_calls(n) if isinstance(c.func, ast.Attribute) and c.func.attr == "get" and unparse(c.func.value) == "ns_map"]
+    look = [n for n, _ in gets]
+    ptests = [t for t in g.nodes if t.kind == "test" and isinstance(t.ast, ast.Name) and t.ast.id in prefixes]
     ok = bool(look) and not any(g.only_if(l.id, t.id, True) for l in look for t in ptests)
     ctx.ob("QNameConverter.resolve looks the prefix up in ns_map also when it is empty (default namespace applies to unprefixed QName values)", ok, at=rs, construct="default namespace lookup",
            msg="an unprefixed QName / xsi:type value no longer picks up the in-scope default namespace: the same document written with a prefix parses differently")
-    for l in look:
-        for c in node_calls(l):
-            if isinstance(c.func, ast.Attribute) and c.func.attr == "get":
-                ctx.ob("QNameConverter.resolve looks up exactly the split prefix", len(c.args) >= 1 and unparse(c.args[0]) == "prefix", at=rs, node=c, msg="another key is looked up")
-    unk = [n for n in g.stmts() if isinstance(n.ast, ast.Raise) and "Unknown namespace prefix" in unparse(n.ast)]
-    ctx.ob("QNameConverter.resolve rejects an undeclared (non-empty) prefix", bool(unk) and bool(ptests) and all(g.only_if(u.id, ptests[0].id, True) for u in unk), at=rs, construct="unknown prefix", msg="undeclared prefixes accepted")
+    for _, c in gets:
+        ctx.ob("QNameConverter.resolve looks up exactly the split prefix", len(c.args) >= 1 and isinstance(c.args[0], ast.Name) and c.args[0].id in prefixes, at=rs, node=c, construct="prefix lookup key", msg="another key is looked up")
+    unk = [n for n in g.stmts() if isinstance(n.ast, ast.Raise) and n.kind == "stmt" and any(g.only_if(n.id, t.id, True) for t in ptests)]
+    ctx.ob("QNameConverter.resolve rejects an undeclared (non-empty) prefix", bool(unk) and bool(ptests), at=rs, construct="unknown prefix", msg="undeclared prefixes accepted")
     xt = ctx.repo.func(f"{PAR}.utils:ParserUtils.xsi_type")
-    ctx.ob("ParserUtils.xsi_type resolves the lexical xsi:type through QNameConverter.resolve(value, ns_map) and returns the qualified name", A("_,_=QNameConverter.resolve(_,_);returnbuild_qname(_,_)") in asrc(xt), at=xt,
+    res_calls = [c for c in calls_in(xt.node) if unparse(c.func) == "QNameConverter.resolve"]
+    rv = [v for v in return_values(xt.node) if not (isinstance(v, ast.Constant) and v.value is None)]
+    parts = names_from_calls(xt.node, ("resolve",))
+    ok = bool(res_calls) and all(len(c.args) == 2 and unparse(c.args[1]) == "ns_map" for c in res_calls) and bool(rv) and all(
+        isinstance(v, ast.Call) and call_name_of(v) == "build_qname" and all(isinstance(a, ast.Name) and a.id in parts for a in v.args) and len(v.args) == 2 for v in rv)
+    ctx.ob("ParserUtils.xsi_type resolves the lexical xsi:type through QNameConverter.resolve(value, ns_map) and returns the qualified name", ok, at=xt,
            construct="xsi:type resolution", msg="xsi:type compared as a lexical (prefix-dependent) string")
     pa = ctx.repo.func(f"{PAR}.utils:ParserUtils.parse_any_attribute")
-    ctx.ob("parse_any_attribute expands a prefix only when it is bound in ns_map", A("if_and_in_and(not_.startswith('//')):;_=build_qname(_[_],_)") in asrc(pa), at=pa, construct="any attribute prefix", msg="attribute value prefixes handled differently")
+    subs = guarded_subscripts(pa.node, "ns_map")
+    ctx.ob("parse_any_attribute expands a prefix only when it is bound in ns_map", bool(subs) and all(ok for _, ok in subs), at=pa, construct="any attribute prefix",
+           msg="ns_map[prefix] is read without a dominating `prefix in ns_map` test: an unbound prefix raises KeyError / is expanded wrongly")
     # field lookup is by qualified name only
     meta = ctx.repo.cls("xsdata.formats.dataclass.models.elements:XmlMeta")
     for name in ("find_attribute", "find_children", "find_any_attributes", "find_wildcard"):
